@@ -52,21 +52,29 @@ def _worker(args):
     tracker = FuncTracker()
     tracker.start()
     t0 = time.time()
+    res = None
+    err = None
     try:
-        runner = CaseRunner(prop, name, fn, cfg, tier, seed, load_known(), os.path.join(VERIF, "evidence", "replays"))
-        res = runner.run()
-    except BaseException as e:  # noqa: BLE001 - report as harness error, never as pass
-        res = {
-            "case": name,
-            "cfg": {k: repr(v) for k, v in cfg.items()},
-            "stats": {},
-            "records": [],
-            "violations": [],
-            "known_hits": [],
-            "inconclusive": [{"obligation": "*", "reason": "harness error: %s: %s" % (type(e).__name__, e), "trace": traceback.format_exc()[-3000:]}],
-            "samples": [],
-            "wall_s": round(time.time() - t0, 3),
-        }
+        try:
+            runner = CaseRunner(prop, name, fn, cfg, tier, seed, load_known(), os.path.join(VERIF, "evidence", "replays"))
+            res = runner.run()
+        except BaseException as e:  # noqa: BLE001 - report as harness error, never as pass
+            err = ("%s: %s" % (type(e).__name__, e), traceback.format_exc()[-3000:])
+            res = _exception_violation(prop, name, fn, cfg, tier, seed, e)
+            if res is not None:
+                res["wall_s"] = round(time.time() - t0, 3)
+        if res is None:
+            res = {
+                "case": name,
+                "cfg": {k: repr(v) for k, v in cfg.items()},
+                "stats": {},
+                "records": [],
+                "violations": [],
+                "known_hits": [],
+                "inconclusive": [{"obligation": "*", "reason": "harness error: %s" % err[0], "trace": err[1]}],
+                "samples": [],
+                "wall_s": round(time.time() - t0, 3),
+            }
     finally:
         tracker.stop()
         smt.cleanup_scratch()
@@ -146,6 +154,57 @@ def _schedule(tasks, jobs, cases, tier, quiet):
                     for t in rest[1:]:
                         queue.append([t])
     return results
+
+
+def _raised_in_felupe(exc):
+    """the exception was raised while the library's own code was running (below the last harness frame)"""
+    files = []
+    tb = exc.__traceback__
+    while tb is not None:
+        files.append(tb.tb_frame.f_code.co_filename)
+        tb = tb.tb_next
+    last_harness = max([i for i, f in enumerate(files) if f.startswith(VERIF)], default=-1)
+    return any(f.startswith("/repo/src/felupe") for f in files[last_harness + 1 :])
+
+
+def _exception_violation(prop, name, fn, cfg, tier, seed, exc):
+    """the symbolic run died with an exception: if the REAL float code raises inside felupe on ordinary concrete
+    inputs of the same case as well, the library fails where the property promises a result -> violation"""
+    if not isinstance(exc, Exception):
+        return None
+    from symnp.harness import Ctx, Reject, _jsonable
+    import hashlib
+
+    for attempt in range(3):
+        ctx = Ctx("float", values={}, seed=seed + attempt, tier=tier)
+        try:
+            fn(ctx, **{k: v for k, v in cfg.items() if k != "max_paths"})
+        except Reject:
+            continue
+        except Exception as e2:  # noqa: BLE001
+            if not _raised_in_felupe(e2):
+                return None
+            known = [k for k in load_known() if k.get("status", "known") == "known" and k.get("property") == prop and k.get("case") == name
+                     and all(cfg.get(a) == b for a, b in (k.get("cfg") or {}).items()) and ("raised:" + type(e2).__name__).startswith(k.get("obligation", ""))]
+            rd = os.path.join(VERIF, "evidence", "replays")
+            os.makedirs(rd, exist_ok=True)
+            h = hashlib.sha1(json.dumps([name, _jsonable(cfg), "raised"], sort_keys=True).encode()).hexdigest()[:10]
+            path = os.path.join(rd, "%s-%s.json" % (prop, h))
+            ob = "raised:" + type(e2).__name__
+            rep = {"property": prop, "case": name, "cfg": _jsonable(cfg), "obligation": ob, "entry": None, "values": ctx.used_values,
+                   "observed": {"exception": "%s: %s" % (type(e2).__name__, str(e2)[:300])}, "solver_model_kind": "exception"}
+            base = {"case": name, "cfg": _jsonable(cfg), "stats": {"obligations": 1, "entries": 1, "paths": 1}, "records": [{"obligation": ob, "path": 0, "entries": 1, "verdict": "violated" if not known else "known-finding", "method": "replay", "seconds": 0.0}],
+                    "violations": [], "known_hits": [], "inconclusive": [], "samples": []}
+            if known:
+                base["known_hits"].append({"obligation": ob, "what": known[0].get("what", "")})
+                return base
+            with open(path, "w") as f:
+                json.dump(rep, f, indent=1, sort_keys=True)
+            base["violations"].append({"obligation": ob, "replay": path, "observed": rep["observed"]})
+            return base
+        else:
+            return None
+    return None
 
 
 def file_sha(path):
@@ -363,6 +422,15 @@ def replay(prop, path):
     except Reject:
         print("replay: stored values violate the case's assumptions")
         return EXIT_INCONCLUSIVE
+    except Exception as e:  # noqa: BLE001
+        if rep["obligation"].startswith("raised:") and _raised_in_felupe(e) and type(e).__name__ == rep["obligation"][7:]:
+            print("replay %s %s: the library raises %s: %s" % (name, json.dumps(rep["cfg"]), type(e).__name__, e))
+            print("VIOLATION property=%s replay=%s" % (prop, path))
+            return EXIT_VIOLATION
+        raise
+    if rep["obligation"].startswith("raised:"):
+        print("replay: not reproduced on the current tree (no exception)")
+        return EXIT_OK
     rec = ctx.float_records.get(rep["obligation"])
     if rec is None:
         print("replay: obligation %s not reached" % rep["obligation"])
